@@ -32,6 +32,7 @@ def run(ck):
     ck.rule("C18.R4", "log emission only until a collector is installed; at most one per path", floor=100)
     ck.rule("C18.R5", "`a collector has been installed` is sticky: set by both install paths, has_been_set() reads only that flag", floor=3)
     ck.rule("C18.R7", "normalized_metadata carries target, file, line and module path each from its own log field, independently", floor=1)
+    ck.rule("C18.R11", "with `log`, the record text names every field: the value-set formatter writes each visited field, whatever its name", floor=2)
     ck.rule("C18.R10", "with `log`, enter/exit records come from Span::do_enter/do_exit: Instrumented polls through them for every span, enabled or not (as C17.R3)", floor=1)
     ck.rule("C18.R9", "EnteredSpan::exit exits once: the guard it consumes is left holding Span::none(), so its Drop has nothing to exit or log", floor=2)
     ck.rule("C18.R6", "LogTracer builder options accumulate: no builder call discards an ignored prefix or the max level", floor=3)
@@ -49,6 +50,7 @@ def run(ck):
     r9(ck)
     from rules import C17
     C17.r3_lib(ck, Facts("log"), rid="C18.R10")
+    r11(ck)
 
 
 def r9(ck):
@@ -528,3 +530,31 @@ def r7(ck, F):
         ck.ok("C18.R7", key, fn=b.path)
     else:
         ck.bad("C18.R7", key, where(b.raw["sp"]), "; ".join(sorted(set(problems))[:3]) or "no Some(Metadata::new(..)) path", fn=b.path)
+
+
+def r11(ck):
+    """tracing's `log` feature renders an event / span's fields into the log record's message with a private Visit impl
+    (LogVisitor inside `Display for LogValueSet`). "The text contains every field": each record_* method writes the field
+    (one write_fmt on the formatter) or hands it to a sibling that does, on every returning path -- no field is dropped
+    because of what it is called."""
+    L = Facts("log")
+    vis = [i for i in L.impls_of("tracing_core::field::Visit") if "LogVisitor" in i["self_ty"] and i["self_ty"].startswith("<tracing::log::")]
+    if not ck.anchor("C18.R11", "Visit for tracing::log::LogVisitor", vis[0] if vis else None):
+        return
+    for m, path in sorted(vis[0]["methods"].items()):
+        b = L.body(path)
+        if not ck.anchor("C18.R11", path, b):
+            continue
+        key = "LogVisitor::%s writes the field on every path" % m
+        bad = []
+        for p in PathEval(b).run():
+            if p.end != "return":
+                continue
+            wrote = sum(1 for c in p.calls if (c[1].get("path") or "").endswith("Formatter::<'a>::write_fmt") or (c[1].get("path") or "").endswith("Formatter::<'a>::write_str"))
+            fwd = sum(1 for c in p.calls if c[1].get("trait") == "tracing_core::field::Visit" and str(c[1].get("method", "")).startswith("record_"))
+            if wrote + fwd != 1:
+                bad.append("%d writes / %d forwards under %s" % (wrote, fwd, [(show(c[0])[:40], c[1]) for c in p.conds][:3]))
+        if bad:
+            ck.bad("C18.R11", key, where(b.raw["sp"]), "; ".join(bad[:2]) + ": a field is left out of (or repeated in) the log record's text", fn=b.path)
+        else:
+            ck.ok("C18.R11", key, fn=b.path)
